@@ -146,10 +146,10 @@ def main():
         "setup_cmd": "./tools/setup.sh",
         "hooks": {
             "guard": "ALLENABY_RLBOX_VERIF",
-            "enable": "every kernel TU is compiled with -DALLENABY_RLBOX_VERIF (engine/fw.py); the one source hook is rlbox_sandbox::verif_advance_incarnation "
+            "enable": "every kernel TU is compiled with -DALLENABY_RLBOX_VERIF (engine/fw.py); the source hooks are rlbox_sandbox::verif_advance_incarnation / verif_advance_incarnation_wide "
                       "(stands for n create/destroy cycles of a not-created sandbox object; used by C13/C14 to quantify over the distance between incarnations; DESIGN.md 3.3)",
             "baseline_off_cmd": "cmake -S /repo -B /repo/_build -G Ninja >/dev/null && cmake --build /repo/_build >/dev/null && ctest --test-dir /repo/_build -j8 --timeout 900",
-            "source_commits": ["34c2b8f"],
+            "source_commits": ["34c2b8f", "04339b6"],
             "add_only": True,
         },
         "engines": [{
